@@ -381,10 +381,10 @@ func runC18(args []string) error {
 					}
 					lg.Emit(tracelog.M{"ev": "fault", "fmt": fmtName, "op": op, "state": st.name, "n": shapeN, "m": shapeM, "w": nWrites, "v": 0,
 						"calls": fio.kinds(), "k": pl.k1, "fk": pl.kd1, "pair": pl.pair, "k2": pl.k2, "fk2": pl.kd2,
-						"res": tracelog.M{"err": res.err, "errtext": tail(res.errText, 80), "repaired": res.repaired},
-						"baseline": tracelog.M{"err": base0.err, "errtext": tail(base0.errText, 80), "calls": len(full)},
+						"res":         tracelog.M{"err": res.err, "errtext": tail(res.errText, 80), "repaired": res.repaired},
+						"baseline":    tracelog.M{"err": base0.err, "errtext": tail(base0.errText, 80), "calls": len(full)},
 						"failed_path": failed, "changed": changed, "completed_writes": completed, "completed_ok": completedOK,
-						"rerun": tracelog.M{"err": rr.err, "errtext": tail(rr.errText, 80), "expected_ok": expectedOK, "same_as_fault_free": same},
+						"rerun":    tracelog.M{"err": rr.err, "errtext": tail(rr.errText, 80), "expected_ok": expectedOK, "same_as_fault_free": same},
 						"panicked": res.panicked || rr.panicked})
 				}
 			}
@@ -468,10 +468,10 @@ func runC18(args []string) error {
 					}
 					lg.Emit(tracelog.M{"ev": "fault", "fmt": fmtName, "op": "create", "state": "fresh", "n": len(names), "m": 0, "w": 0, "v": nW - 1,
 						"calls": fio.kinds(), "k": k, "fk": kd, "pair": false, "k2": 0, "fk2": "",
-						"res": tracelog.M{"err": res.err, "errtext": tail(res.errText, 80), "repaired": []string{}},
-						"baseline": tracelog.M{"err": base0.err, "errtext": "", "calls": len(full)},
+						"res":         tracelog.M{"err": res.err, "errtext": tail(res.errText, 80), "repaired": []string{}},
+						"baseline":    tracelog.M{"err": base0.err, "errtext": "", "calls": len(full)},
 						"failed_path": failed, "changed": changed, "completed_writes": completed, "completed_ok": completedOK,
-						"rerun": tracelog.M{"err": rr.err, "errtext": tail(rr.errText, 80), "expected_ok": true, "same_as_fault_free": same},
+						"rerun":    tracelog.M{"err": rr.err, "errtext": tail(rr.errText, 80), "expected_ok": true, "same_as_fault_free": same},
 						"panicked": res.panicked || rr.panicked})
 				}
 			}
